@@ -1,8 +1,8 @@
 SPECIFICATION Spec
 CONSTANTS
  NK = 5
- BF = 3
+ BF = 2
  MaxLayer = 2
- OnlyTall = FALSE
+ OnlyTall = TRUE
 INVARIANTS StepOK Emit
 CHECK_DEADLOCK FALSE
